@@ -579,17 +579,26 @@ func runFaults(r *vs.Rand, i int, seed uint64, out *vs.Out) {
 	// the faulty run ended with the parent pending deletion and no longer carrying the controller's finalizer: from then on
 	// nothing is reconciled for it (the dying-parent guard of C10), whatever the fault left behind
 	released := false
+	// ... or alive, outside the parent selector and no longer carrying the finalizer (finalize on deselect): the controller
+	// ignores such a parent, so whatever the sync that removed the finalizer could not finish is never retried (F-C12-1)
+	abandoned := false
 	run := func(fault bool) ([]roundInfo, []interface{}) {
 		rr := vs.CaseRand(seed+7777, i)
 		sc := buildScenario(rr, cfg)
 		defer sc.w.close()
+		deselect := false
 		if cfg.Finalize && rr.Chance(25) {
 			// a parent that is being finalized right now: pending deletion, still carrying the controller's finalizer, and a
 			// finalize hook that says "done" - so the finalizer removal (a read-modify-write of the parent) happens in this sync
 			finName := "metacontroller.io/compositecontroller-" + cfg.Name
+			// ... or, for a controller with a parent selector, alive but relabelled out of the selector ("finalize on deselect")
+			deselect = cfg.ParentSelector != nil && rr.Chance(40)
 			sc.w.sim.Mutate(parentGroup, cfg.parentResource(), nsOfKey(sc.key), "p1", func(o map[string]interface{}) {
 				md := o["metadata"].(map[string]interface{})
-				if _, ok := md["deletionTimestamp"]; !ok {
+				if deselect {
+					delete(md, "deletionTimestamp")
+					md["labels"] = map[string]interface{}{}
+				} else if _, ok := md["deletionTimestamp"]; !ok {
 					md["deletionTimestamp"] = "2024-01-01T00:00:09Z"
 				}
 				fs, _ := md["finalizers"].([]interface{})
@@ -614,7 +623,16 @@ func runFaults(r *vs.Rand, i int, seed uint64, out *vs.Out) {
 		}
 		var rounds []roundInfo
 		if fault {
-			if r.Chance(30) {
+			if deselect && r.Chance(60) {
+				// the requests that follow the finalizer removal of a deselected parent: the status write and the child deletions
+				after := []vs.Fault{
+					{Verb: "updateStatus", Resource: cfg.parentResource(), Code: 500, Reason: "InternalError", Nth: 1},
+					{Verb: "updateStatus", Resource: cfg.parentResource(), Code: 404, Reason: "NotFound", Nth: 1},
+					{Verb: "delete", Code: 500, Reason: "InternalError", Nth: 1},
+				}
+				f := after[r.Intn(len(after))]
+				sc.w.sim.Faults = []*vs.Fault{&f}
+			} else if r.Chance(30) {
 				// a persistent fault during the first sync: every request of one class fails (e.g. an outside writer
 				// that keeps winning the race, so that every retry of a read-modify-write conflicts)
 				classes := []vs.Fault{
@@ -635,7 +653,7 @@ func runFaults(r *vs.Rand, i int, seed uint64, out *vs.Out) {
 					{Verb: "update", Code: 404, Reason: "NotFound", Nth: 1}, {Verb: "update", Code: 404, Reason: "NotFound", Nth: 2},
 					{Verb: "update", Code: 500, Reason: "InternalError", Nth: 1}, {Verb: "update", Code: 409, Reason: "Conflict", Nth: 2},
 					{Verb: "get", Code: 404, Reason: "NotFound", Nth: 1}, {Verb: "get", Code: 404, Reason: "NotFound", Nth: 2}, {Verb: "get", Code: 404, Reason: "NotFound", Nth: 3},
-					{Verb: "updateStatus", Code: 404, Reason: "NotFound", Nth: 1},
+					{Verb: "updateStatus", Code: 404, Reason: "NotFound", Nth: 1}, {Verb: "updateStatus", Code: 500, Reason: "InternalError", Nth: 1},
 				}
 				f := aimed[r.Intn(len(aimed))]
 				f.Resource = cfg.parentResource()
@@ -673,14 +691,19 @@ func runFaults(r *vs.Rand, i int, seed uint64, out *vs.Out) {
 				}
 				_, del := md["deletionTimestamp"]
 				released = del && !has
+				lbl, _ := md["labels"].(map[string]interface{})
+				abandoned = !del && !has && cfg.ParentSelector != nil && lbl["managed"] != "yes"
 			}
 		}
 		return rounds, project(sc.w.sim.Snapshot())
 	}
 	fr, fstore := run(true)
 	tr, tstore := run(false)
+	if os.Getenv("VERIF_DUMP") != "" {
+		fmt.Fprintf(os.Stderr, "FAULTY %s\nTWIN %s\n", vs.MustJSON(fstore), vs.MustJSON(tstore))
+	}
 	out.Line(vs.M{"kind": "rounds", "mode": "faults", "case": i, "seed": seed, "cfg": cfg, "rounds": fr, "twinRounds": tr,
-		"finalEqualsTwin": vs.MustJSON(fstore) == vs.MustJSON(tstore), "finalDigest": digest(fstore), "twinDigest": digest(tstore), "foreign": foreign, "released": released})
+		"finalEqualsTwin": vs.MustJSON(fstore) == vs.MustJSON(tstore), "finalDigest": digest(fstore), "twinDigest": digest(tstore), "foreign": foreign, "released": released, "abandoned": abandoned})
 }
 
 var jsonTypes = []interface{}{nil, true, int64(0), int64(-3), int64(1) << 62, "str", []interface{}{}, []interface{}{nil}, map[string]interface{}{}, []interface{}{int64(1)}, map[string]interface{}{"x": int64(1)}}
